@@ -453,3 +453,47 @@ def _getitem(run, ci, m):
         else:
             run.fail('C15-R4', _key(ci, '__getitem__', 'unique'), *where,
                      what='__getitem__ returns the first of several members with the same name without a uniqueness test')
+
+
+_B = 'cherab/tools/observers/group/base.py'
+_S = 'cherab/tools/observers/group/spectroscopic.py'
+_F = 'cherab/tools/observers/group/fibreoptic.py'
+MUTANTS = [
+    dict(name='setter-bound-to-other-name', file=_F, find="@radius.setter\n    def radius(self, value):", replace="@radius.setter\n    def acceptance_angle(self, value):", expect='C15-R1'),
+    dict(name='getter-reads-other-attr', file=_B, find="return [observer.spectral_rays for observer in self._observers]", replace="return [observer.spectral_bins for observer in self._observers]", expect='C15-R2'),
+    dict(name='scalar-branch-other-attr', file=_B, find="            for observer in self._observers:\n                observer.ray_max_depth = value", replace="            for observer in self._observers:\n                observer.ray_extinction_min_depth = value", expect='C15-R2'),
+    dict(name='length-check-relaxed', file=_B, find="if len(value) == len(self._observers):\n                for observer, v in zip(self._observers, value):\n                    observer.pixel_samples = v",
+         replace="if len(value) >= len(self._observers):\n                for observer, v in zip(self._observers, value):\n                    observer.pixel_samples = v", expect='C15-R3'),
+    dict(name='length-check-after-loop', file=_B, find="        if len(pipelist) == len(self._observers):\n            for observer, pipelines in zip(self._observers, pipelist):\n                observer.pipelines = pipelines\n        else:",
+         replace="        for observer, pipelines in zip(self._observers, pipelist):\n            observer.pipelines = pipelines\n        if len(pipelist) == len(self._observers):\n            pass\n        else:", expect='C15-R3'),
+    dict(name='add-observer-no-typecheck', file=_B, find='        if not isinstance(observer, self._OBSERVER_TYPE):\n            raise ValueError("Can only add {} objects".format(self._OBSERVER_TYPE))\n', replace='', expect='C15-R4'),
+    dict(name='observe-skips-last', file=_B, find="        for observer in self._observers:\n            observer.observe()", replace="        for observer in self._observers[:-1]:\n            observer.observe()", expect='C15-R4'),
+    dict(name='getter-filtered', file=_B, find="return [observer.quiet for observer in self._observers]", replace="return [observer.quiet for observer in self._observers if observer.quiet]", expect='C15-R2'),
+    dict(name='zip-order-swapped', file=_B, find="for observer, v in zip(self._observers, value):\n                    observer.quiet = v", replace="for observer, v in zip(value, self._observers):\n                    observer.quiet = v", expect='C15-R'),
+    dict(name='scalar-branch-runs-for-sequences', file=_S, find="        else:\n            for sight_line in self._observers:\n                sight_line.origin = value", replace="        for sight_line in self._observers:\n            sight_line.origin = value", expect='C15-R3'),
+    dict(name='mismatch-raises-typeerror', file=_B, find="""                raise ValueError("The length of 'quiet' ({}) \"""", replace="""                raise TypeError("The length of 'quiet' ({}) \"""", expect='C15-R3'),
+    dict(name='unique-name-not-checked', file=_B, find="                if len(observers) == 1:\n                    return observers[0]", replace="                if len(observers) >= 1:\n                    return observers[0]", expect='C15-R4'),
+    dict(name='observers-setter-no-parent', file=_B, find="        for observer in value:\n            observer.parent = self\n        self._observers = tuple(value)", replace="        self._observers = tuple(value)", expect='C15-R4'),
+]
+TWINS = [
+    dict(name='message-text', file=_B, find="Can only add {} objects", replace="Only {} objects can be added"),
+    dict(name='branches-reordered', file=_B,
+         find="""        if isinstance(value, (list, tuple, ndarray)):
+            if len(value) == len(self._observers):
+                for observer, v in zip(self._observers, value):
+                    observer.quiet = v
+            else:
+                raise ValueError("The length of 'quiet' ({}) "
+                                 "mismatches the number of observers ({}).".format(len(value), len(self._observers)))
+        else:
+            for observer in self._observers:
+                observer.quiet = value""",
+         replace="""        if not isinstance(value, (list, tuple, ndarray)):
+            for observer in self._observers:
+                observer.quiet = value
+        else:
+            if len(value) != len(self._observers):
+                raise ValueError("The length of 'quiet' mismatches the number of observers.")
+            for observer, v in zip(self._observers, value):
+                observer.quiet = v"""),
+]
